@@ -70,8 +70,14 @@ class Units:
     ret   declared return unit (or None: all returns must agree with each other)
     """
 
-    def __init__(self, finfo, decl):
+    def __init__(self, finfo, decl, repo=None, follow=False, _stack=()):
         self.f = finfo
+        self.repo = repo
+        self.follow = follow        # descend into nested closures and helpers that are not anchor functions, binding parameter units
+        self._stack = _stack        # from the call's arguments (interprocedural inference; recursion is cut)
+        self.decl = decl
+        self.local_funcs = {}
+        self.descended = []
         self.env = {k: NAMED[v] for k, v in decl.get("env", {}).items()}
         self.attr = {k: NAMED[v] for k, v in decl.get("attr", {}).items()}
         self.calls = {k: (NAMED[v] if v else None) for k, v in decl.get("calls", {}).items()}
@@ -300,6 +306,15 @@ class Units:
                 self.u(a)
             for k in n.keywords:
                 self.u(k.value)
+        if self.follow:
+            got = self.descend(n, last)
+            if got is not NotImplemented:
+                want = self.calls.get(last)
+                if isinstance(got, U) and isinstance(want, U):
+                    self.ops += 1
+                    if not got.same(want):
+                        self.issue(n, f"{last}() returns a value in {got} where the caller takes it as {want}", f"callret:{last}")
+                return want if isinstance(want, U) else got
         if last in self.calls:
             return self.calls[last]
         if fn in self.calls:
@@ -308,6 +323,62 @@ class Units:
             d = self.dn(n.func)
             if d in self.calls:
                 return self.calls[d]
+        return None
+
+    def _callee(self, n, last):
+        """(function node, is_closure, is_method) for a call that may be descended into, else None"""
+        if isinstance(n.func, ast.Name) and last in self.local_funcs:
+            return self.local_funcs[last], True, False
+        if self.repo is None or not last:
+            return None
+        from .inline import load_known
+        known = load_known() or set()
+        cands = [f for q, fs in self.repo.funcs.items() for f in fs if q.split(".")[-1] == last and q not in known]
+        if len(cands) != 1:
+            return None
+        f = cands[0]
+        if isinstance(n.func, ast.Name) and "." not in f.qual:
+            return f.node, False, False
+        if isinstance(n.func, ast.Attribute) and dotted(n.func.value) in ("self", "cls") and "." in f.qual:
+            return f.node, False, True
+        return None
+
+    def descend(self, n, last):
+        c = self._callee(n, last)
+        if c is None:
+            return NotImplemented
+        fnode, closure, is_method = c
+        if id(fnode) in self._stack or len(self._stack) >= 4:
+            return NotImplemented
+        from .inline import _bind
+        b = _bind(fnode, n, is_method, None)
+        if b is None:
+            return NotImplemented
+        env = dict(self.env) if closure else dict(self._declared_units)
+        # declared names keep their declared unit in the callee (the tables are name-keyed); the arguments refine them
+        for p_, a in b.items():
+            if is_method and p_ == list(b)[0]:
+                continue
+            u = self.u(a)
+            if isinstance(u, U):
+                env[p_] = u
+            elif p_ in self._declared_units:
+                env[p_] = self._declared_units[p_]
+            else:
+                env.pop(p_, None)
+        child = Units(type("F", (), {"node": fnode})(), {}, repo=self.repo, follow=True, _stack=self._stack + (id(fnode),))
+        child.env = env
+        child.attr, child.calls, child.sigs = self.attr, self.calls, self.sigs
+        child._declared_units = self._declared_units
+        child.local_funcs = dict(self.local_funcs) if closure else {}
+        child.run()
+        self.issues += child.issues
+        self.ops += child.ops
+        self.descended.append(fnode.name)
+        self.descended += child.descended
+        known = [u for _, u in child.rets if isinstance(u, U)]
+        if known and all(k.same(known[0]) for k in known):
+            return known[0]
         return None
 
     def same_all(self, exprs, node, msg, sink):
@@ -326,6 +397,9 @@ class Units:
     # -- statements
     def run(self):
         self._declared = set(self.env)
+        if not hasattr(self, "_declared_units"):
+            self._declared_units = dict(self.env)
+        self._rebound = set()
         body = [s for s in self.f.node.body]
         self.block(body)
         known = [(n, u) for n, u in self.rets if isinstance(u, U)]
@@ -388,9 +462,12 @@ class Units:
             self.block(s.finalbody)
         elif isinstance(s, ast.Raise) and s.exc is not None:
             pass
+        elif isinstance(s, ast.FunctionDef):
+            self.local_funcs[s.name] = s
 
     def bind(self, t, u, s):
         if isinstance(t, ast.Name):
+            self._rebound.add(t.id)
             if isinstance(u, U):
                 self.env[t.id] = u          # declarations give the *initial* unit; a rebinding carries its own
             elif t.id in self.env and (t.id not in self._declared or u is None and not isinstance(s.value, ast.Constant)):
@@ -406,9 +483,9 @@ class Units:
             pass
 
 
-def check_units(ck, rid, finfo, decl):
+def check_units(ck, rid, finfo, decl, follow=False):
     """run the engine on one function; each issue is a violation of `rid`; returns #checked operations."""
-    e = Units(finfo, decl).run()
+    e = Units(finfo, decl, repo=ck.repo, follow=follow).run()
     if e.issues:
         for node, msg, sink in e.issues:
             ck.violation(rid, finfo, node, msg, sink=sink)
